@@ -244,7 +244,9 @@ func (r *run) runMemLimit() {
 		r.probe("walk_truncated")
 	}
 	if len(r.out.Violations) == 0 {
-		for _, extra := range []uint64{L + 1, L + 64, 2*L + 1024, 1 << 20, 70 << 20} {
+		// ... and the far end of the parameter's range: "raising the limit" has no upper bound in the
+		// statement, and a limit beyond the signed 32 / 64-bit ranges is how "unlimited" gets configured
+		for _, extra := range []uint64{L + 1, L + 64, 2*L + 1024, 1 << 20, 70 << 20, 1<<31 - 1, 1 << 31, 1<<32 + 1, 1<<63 - 1, 1 << 63, 1<<64 - 1} {
 			if extra <= L {
 				continue
 			}
